@@ -42,11 +42,20 @@ fn pattern_doc(picks: &[(u8, Vec<(u8, u8)>, u8)]) -> String {
         };
         for (p, n) in classes {
             let base = PATTERNS[*p as usize % PATTERNS.len()];
+            let pad = *n / 104; // 0: plain, 1: zero-padded, 2: plain and zero-padded spellings of the same spacing
             let n = *n % 104; // includes the invalid suffixes 0, 101..103 and the bare class
             if n == 103 {
                 e.add_class(base);
             } else {
-                e.add_class(&format!("{base}-{n}"));
+                match pad {
+                    0 => e.add_class(&format!("{base}-{n}")),
+                    1 => e.add_class(&format!("{base}-0{n}")),
+                    _ => {
+                        e.add_class(&format!("{base}-00{n}"));
+                        e.add_class(&format!("{base}-{n}"));
+                        e.add_class(&format!("{base}-0{n}"));
+                    }
+                }
             }
         }
         if other % 3 != 0 {
